@@ -1,4 +1,5 @@
 import PexpectModel.ExOutcome
+import PexpectModel.ReadApi
 /-! # C01 — stream conservation.  Property theorems only (helper lemmas live in `Ex*.lean`). -/
 namespace C01
 open Ex Py
@@ -39,6 +40,33 @@ theorem setBuffer_replaces (v : List α) (ops : List (Op α)) (evs : List (Ev α
 theorem inv_reachable (ops : List (Op α)) (evs : List (Ev α)) :
     Inv (runOps ({ B := [], S := [] } : St α) ops evs).2.1 :=
   (Ex.history_eq_naive ops evs ({ B := [], S := [] } : St α) (List.suffix_refl ([] : List α))).2.2.2
+
+/-! ### the file-like readers hand back exactly what they return (`Ra.*`: read(n), read(), readline(), readlines(), iteration) -/
+
+/-- `read(n)`: the value returned, followed by the new pending text, is the old pending text plus the data read;
+    it has `n` characters unless the stream ended (the repaired code ignores the object's search window here) -/
+theorem read_returns_handed (n : Nat) (st : St α) (evs : List (Ev α)) (hI : Inv st) (v : List α)
+    (h : (Ra.readN n st evs).1 = .value v) :
+    ∃ used, evs = used ++ (Ra.readN n st evs).2.2 ∧ Inv (Ra.readN n st evs).2.1 ∧
+      v ++ (Ra.readN n st evs).2.1.B = st.B ++ dataOf used ∧ (v.length = n ∨ (Ra.readN n st evs).2.1.B = []) :=
+  Ra.read_returns_handed n st evs hI v h
+
+theorem readline_returns_handed (crlf : List α) (W : Nat) (st : St α) (evs : List (Ev α)) (hI : Inv st) (v : List α)
+    (h : (Ra.readline crlf W st evs).1 = .value v) :
+    ∃ used, evs = used ++ (Ra.readline crlf W st evs).2.2 ∧ Inv (Ra.readline crlf W st evs).2.1 ∧
+      v ++ (Ra.readline crlf W st evs).2.1.B = st.B ++ dataOf used ∧
+      (crlf <:+ v ∨ (Ra.readline crlf W st evs).2.1.B = []) :=
+  Ra.readline_returns_handed crlf W st evs hI v h
+
+/-- `readlines()` and iteration: the lines, concatenated, followed by the pending text = old pending text + data read -/
+theorem readlines_returns_handed (crlf : List α) (W : Nat) (fuel : Nat) (st : St α) (evs : List (Ev α)) (hI : Inv st)
+    (acc lines : List (List α)) (h : (Ra.readlines crlf W fuel st evs acc).1 = some lines) :
+    ∃ used new, evs = used ++ (Ra.readlines crlf W fuel st evs acc).2.2 ∧ lines = acc ++ new ∧ (∀ l ∈ new, l ≠ []) ∧
+      new.flatten ++ (Ra.readlines crlf W fuel st evs acc).2.1.B = st.B ++ dataOf used :=
+  Ra.readlines_returns_handed crlf W fuel st evs hI acc lines h
+
+example : (Ra.readlines [13, 10] 0 9 ({ B := [], S := [] } : St Nat) [.data [97, 13], .data [10, 98, 13, 10, 99], .eofExc, .eofExc] []).1 =
+    some [[97, 13, 10], [98, 13, 10], [99]] := by decide
 
 /-! non-vacuity: a match straddling a read boundary under W = 1-character reads; `$`-like end anchor -/
 def endAnchor : ReFn Nat := { search := fun w pos => if pos ≤ w.length then some (w.length, w.length) else none }
